@@ -253,6 +253,11 @@ class FakeVideo:
 
     def __getitem__(self, idx):
         self.ctl.park("P", ("read", int(idx)))
+        if not 0 <= idx < self.shape[0]:
+            # like a real sio.Video (HDF5Video both ways, MediaVideo past the end): "Frame index N out of range."
+            # (the check replays this on a real video every run: props/c13.py real_video_fidelity)
+            self.ctl.event("read_fail", int(idx))
+            raise IndexError(f"Frame index {idx} out of range.")
         if self.fault is not None and idx == self.fault:
             self.ctl.event("read_fail", int(idx))
             raise ReadFault(f"cannot decode frame {idx}")
